@@ -277,12 +277,51 @@ pub fn c14(ctx: &mut Ctx, acc: &mut Acc) -> i32 {
             continue;
         }
         for (k, step) in he.history.steps.iter().enumerate() {
-            let refmodel::evo::HStep::MadeTransient { name, .. } = step else { continue };
+            let refmodel::evo::HStep::MadeTransient { name, default } = step else { continue };
             let touched_before = he.history.steps[..k].iter().any(|s| match s {
                 refmodel::evo::HStep::MadeOptional(n) => n == name,
                 refmodel::evo::HStep::Added { field, .. } => &field.name == name,
                 _ => false,
             });
+            // data written by every earlier version (also versions that predate the field altogether), read by the version
+            // in which the field is transient: the field is its declared default, nothing else
+            if let Some((_, ids)) = he.flavours.iter().find(|(f, _)| f == "struct") {
+                let reader = ctx.reg.get(&ids[k + 1]).unwrap();
+                let rty = reader.ty();
+                let pos = match rty.resolved() {
+                    Ty::Record(r) => r.fields.iter().position(|f| &f.name == name),
+                    _ => None,
+                };
+                for w in 0..=k {
+                    let writer = ctx.reg.get(&ids[w]).unwrap();
+                    for idx in 0..n.min(30) {
+                        let mut rng = ctx.rng_for(0xC14 ^ 0xB, writer.id(), idx);
+                        let v = gen_val(&writer.ty(), &mut rng, &ctx.gen);
+                        let Some((_x, bytes)) = encode_case(acc, writer, &v) else { continue };
+                        // only pairs whose documented outcome is a value
+                        if he.history.expected(w, k + 1, &v).is_err() {
+                            continue;
+                        }
+                        acc.case(Some(sig(&[reader.id().as_bytes(), &bytes])));
+                        let got = dec_val(reader, &bytes);
+                        let field_ok = match (&got, pos) {
+                            (Call::Ok(Val::Rec(fields)), Some(p)) => canon(&rty, &Val::Rec(fields.clone())).ok().and_then(|c| match c {
+                                Val::Rec(f) => Some(f[p].clone()),
+                                _ => None,
+                            }) == refmodel::canon(&match rty.resolved() { Ty::Record(r) => r.fields[p].ty.clone(), t => t }, default).ok(),
+                            _ => false,
+                        };
+                        if field_ok {
+                            acc.count("transient_default_for_older_data");
+                        } else {
+                            acc.violation(
+                                format!("C14|{}->{}|transient_field_from_older_data|{}", writer.id(), reader.id(), if got.is_ok() { "not_the_declared_default".to_string() } else { got.class() }),
+                                replay_decode("C14", reader.id(), &bytes, "older data read by the version in which the field is transient").with("writer", J::s(writer.id())).with("field", J::s(name.clone())).with("declared_default", J::s(default.render(200))),
+                            );
+                        }
+                    }
+                }
+            }
             for (flavour, ids) in &he.flavours {
                 let s = ctx.reg.get(&ids[k + 1]).unwrap();
                 for idx in 0..n.min(50) {
